@@ -535,3 +535,54 @@ def rule_etree_mustwrite(mod, rep):
                       "column counts are under-predicted)", sts[0].loc, f.name)
         if not found:
             rep.brk("ANALYSIS-BROKEN ETREE-W: no store parent[col] indexed by the column counter in %s" % name)
+
+
+# ---------------------------------------------------------------------------------------------------------------------------------
+# SNODE-SHAPE (C06 C05): a relaxed supernode that has fewer rows than columns is not handed to the dense kernels as it is
+# ---------------------------------------------------------------------------------------------------------------------------------
+def rule_snode_shape(mod, rep):
+    rep.rule("SNODE-SHAPE", "every dense kernel of the factorization takes nrow = nsupr - nsupc >= 0 for granted (rows below the diagonal block, row list at least as long as the "
+             "column count). A relaxed supernode is built from the union of the rows of its columns, which can be smaller than its width for a structurally rank-deficient "
+             "input; p?gstrf_factor_snode / p?gstrf_snode_dfs therefore have to compare the number of rows found with the number of columns (and pad, split or stop) "
+             "before the supernode becomes visible to the update kernels", floor=4)
+    for prec, f in fam(mod, "p?gstrf_factor_snode"):
+        fs = [f] + [mod.funcs[n] for n in ("p%sgstrf_snode_dfs" % prec,) if n in mod.funcs]
+        rep.scope([x.name for x in fs])
+        found = None
+        for g in fs:
+            for C in g.insts():
+                if C.op != "icmp":
+                    continue
+                def tree(o, depth=0):
+                    """instructions of the pure arithmetic expression of o (no phi: a loop index is not a count)"""
+                    o = strip_casts(g, o)
+                    if o[0] != "v" or depth > 8:
+                        return [], o[0] == "a" and [o] or []
+                    x = g.inst[o[1]]
+                    if x.op == "phi":
+                        return None, None
+                    if x.op == "load":
+                        return [x], []
+                    if x.op in ("add", "sub"):
+                        ins, prm = [x], []
+                        for z in x.ops:
+                            a_, b_ = tree(z, depth + 1)
+                            if a_ is None:
+                                return None, None
+                            ins += a_; prm += b_
+                        return ins, prm
+                    return [x], []
+                sides = []
+                for o in C.ops:
+                    ins, prm = tree(o)
+                    if ins is None:
+                        sides.append(None); continue
+                    is_rows = any(x.op == "sub" for x in ins) and any(x.op == "load" and addr_is_elem_of(g, x, "xlsub_end") for x in ins) and any(x.op == "load" and addr_is_elem_of(g, x, "xlsub") for x in ins)
+                    is_cols = any(x.op == "load" and addr_has_field(g, x, "size", "pan_status_t") for x in ins) or \
+                        (any(x.op == "sub" for x in ins) and {g.pname(z[1]) for z in prm} >= {"kcol", "jcol"})
+                    sides.append("rows" if is_rows and not is_cols else ("cols" if is_cols and not is_rows else "?"))
+                if sorted(x or "?" for x in sides) == ["cols", "rows"]:
+                    found = C
+        rep.check(found is not None, "SNODE-SHAPE", "%s#rows>=cols" % f.name, "row count and column count of the relaxed supernode are compared at %s" % (found.loc if found else ""),
+                  "no comparison of the relaxed supernode's row count with its width: for a supernode with fewer rows than columns the update kernels read the row list past its "
+                  "end and write past lusup[] (nrow = nsupr - nsupc < 0)", f.file, f.name)
